@@ -330,22 +330,8 @@ def run(prog, check):
     # try around an evaluation, walk the feasible paths (truthiness constants propagated, so `flag = True` / an error
     # message that is a non-empty literal is remembered and `if flag: raise` is honoured) up to the start of the next
     # sweep; no commit may be reached.
-    from ..dataflow import truth_search, trace
-    handlers = []
-    for n in sw.loop_nodes:
-        if n.kind == 'except' and isinstance(n.stmt, ast.Try) and any(eval_calls(b) for b in n.stmt.body):
-            handlers.append(n)
-    commit_ids = {c.id for c in sw.commit_nodes}
-
-    def new_sweep(a, b, lab):
-        return a == sw.loop_test.id and lab is True
-    for h in handlers:
-        hits, seen = truth_search(g, [h], commit_ids, stop_edge=new_sweep)
-        ok = not hits
-        wit = ''
-        if hits:
-            k = sorted(hits)[0]
-            wit = ' via lines ' + ','.join(str(x) for x in trace(seen, hits[k], g))
+    from ..solver_model import stepped_over_errors
+    for h, ok, wit in stepped_over_errors(sw):
         ty = unparse(h.ast.type) if h.ast.type is not None else 'bare'
         check.ob('C02.R5', '%s::stepped-over-error-blocks-commit(%s)' % (f.key, ty), ok, sw.where(h),
                  'no commit is reachable from this handler before the next sweep starts' if ok else
